@@ -47,6 +47,7 @@ type zOut struct {
 	Notes2 []string
 	Notes3 []string // ephemeral writes whose key does not belong to the writing session
 	Notes4 []string // plain keys turned into ephemeral ones
+	Notes5 []string // existing keys reported as missing
 	Skipped map[int]bool // ops whose request was lost and NOT re-sent (the client had already noticed the disconnect): no effect
 	Fired map[int]bool // op index -> the connection of the op's client was really cut during the op
 	AdvAfter map[int]int // op index -> milliseconds the harness itself spent inside a composite op (the machine's clock is advanced by them)
@@ -271,9 +272,14 @@ func zRun(t *testing.T, in zIn) zOut {
 			}
 		case "get":
 			var v any
+			_, existsBefore := srv.Dump()[z.buildFullPath(o.P)]
 			err := z.Get(o.P, &v)
 			if err != nil {
 				res = zErrGal(err)
+				if _, existsAfter := srv.Dump()[z.buildFullPath(o.P)]; res == "ZNotFound" && existsBefore && existsAfter {
+					// get distinguishes a missing key from an unparsable one (an intermediate key carries no value: unparsable, not missing)
+					out.Notes5 = append(out.Notes5, fmt.Sprintf("op %d: Get %q answers 'not found' although the key exists on the server", len(out.Res), o.P))
+				}
 			} else {
 				switch x := v.(type) {
 				case float64:
@@ -736,6 +742,9 @@ func zMonitor(m *vk.Meta, in zIn, out zOut) {
 	}
 	for _, n := range out.Notes3 {
 		m.Violation("ephemeral keys exist only while the session that created them lives", in, n)
+	}
+	for _, n := range out.Notes5 {
+		m.Violation("get distinguishes a missing key from an unparsable one", in, n)
 	}
 	for _, n := range out.Notes4 {
 		m.Violation("a plain key is never silently turned into an ephemeral one", in, n)
